@@ -337,6 +337,11 @@ theorem insert_in_place_is_the_source_u32 {D : Type} (g : Rng D) (fuel e sz cap 
       insert cfg32 g (fuel + 1) (.heap sz cap bits a) e d = armOut cap bits d (.ok res)) :=
   ⟨fun hc h => insert_dense_is_the_source_u32 g fuel e sz cap a hc d h,
    fun bits hb h => insert_heap_is_the_source_u32 g fuel e sz cap bits a he hb hn d h⟩
+theorem insert_in_place_plain_is_the_source_u32 {D : Type} (g : Rng D) (fuel e sz cap bits : Nat) (a : Tbl)
+    (hb : bits = 0 ∨ bits > 32) (hn : a.size < 2 ^ 32) (d : D) {res : (Bool × Nat) × Array Nat}
+    (h : Gen.insert_big_32 e sz bits a = .ok res) :
+    insert cfg32 g (fuel + 1) (.heap sz cap bits a) e d = armOut cap bits d (.ok res) :=
+  insert_big_is_the_source_u32 g fuel e sz cap bits a hb hn d h
 
 end C02
 
